@@ -1233,7 +1233,115 @@ bool enumerate(std::string& why) {
 // =====================================================================================================
 // 8. Replay
 // =====================================================================================================
+// ---- named-lvalue laws -----------------------------------------------------------------------------------------
+// Building a matcher FROM a named, non-const matcher object (`!m`, `*m`, `any_of(m, x)`, `MEMBER_IS(&S::s, m)`) must not
+// change what `m` itself accepts, and the new matcher must behave as if built from a copy. Library matchers only (no
+// harness wrapper), operands long enough that a move would visibly steal the buffer. Exhaustive over the string pool.
+static std::string lv_long(int i) { return std::string("0123456789abcdefghij_") + POOL[i]; }
+template <typename M>
+static std::vector<bool> lv_eval(const M& m, const std::vector<std::string>& vals) {
+  std::vector<bool> r;
+  for (auto& v : vals) r.push_back(trompeloeil::param_matches(m, std::cref(v)));
+  return r;
+}
+static bool lvalue_laws_one(int ia, int ib, int rel, std::string& why) {
+  const std::string A = lv_long(ia), B = lv_long(ib);
+  std::vector<std::string> vals{A, B, std::string(), lv_long((ia + 1) % NPOOL), "zzzzzzzzzzzzzzzzzzzzzzzzzzzzzzzz"};
+  auto expect = [&](const std::string& opnd, const std::string& v) {
+    switch (rel) { case 0: return v == opnd; case 1: return v != opnd; case 2: return v < opnd; default: return v >= opnd; }
+  };
+  auto fail = [&](const char* what) {
+    why = std::string("named-lvalue law violated: ") + what + "\nrelation " + std::to_string(rel) + ", operand a = pool[" + std::to_string(ia) + "], b = pool[" + std::to_string(ib) + "]";
+    return false;
+  };
+  auto run = [&](auto m, auto m2) {   // m, m2: named non-const library matchers on A resp. B
+    std::vector<bool> want, want2;
+    for (auto& v : vals) { want.push_back(expect(A, v)); want2.push_back(expect(B, v)); }
+    if (lv_eval(m, vals) != want) return fail("fresh matcher disagrees with the relation");
+    auto n = !m;                                         // negation of an lvalue
+    if (lv_eval(m, vals) != want) return fail("`!m` changed the named matcher m");
+    { auto r = lv_eval(n, vals); for (size_t i = 0; i < r.size(); ++i) if (r[i] == want[i]) return fail("`!m` built from an lvalue does not accept exactly what m rejects"); }
+    auto n2 = !m;                                        // and again
+    if (lv_eval(n2, vals) != lv_eval(n, vals) || lv_eval(m, vals) != want) return fail("a second `!m` differs / changed m");
+    auto any = trompeloeil::any_of(m, m2);               // combinators from lvalues
+    if (lv_eval(m, vals) != want || lv_eval(m2, vals) != want2) return fail("`any_of(m, m2)` changed a named operand");
+    { auto r = lv_eval(any, vals); for (size_t i = 0; i < r.size(); ++i) if (r[i] != (want[i] || want2[i])) return fail("`any_of(m, m2)` built from lvalues is wrong"); }
+    auto all = trompeloeil::all_of(m, !m2);
+    if (lv_eval(m, vals) != want || lv_eval(m2, vals) != want2) return fail("`all_of(m, !m2)` changed a named operand");
+    { auto r = lv_eval(all, vals); for (size_t i = 0; i < r.size(); ++i) if (r[i] != (want[i] && !want2[i])) return fail("`all_of(m, !m2)` built from lvalues is wrong"); }
+    auto none = trompeloeil::none_of(m, m2);
+    if (lv_eval(m, vals) != want || lv_eval(m2, vals) != want2) return fail("`none_of(m, m2)` changed a named operand");
+    auto nany = !any;                                    // negation of a named combinator
+    { auto r = lv_eval(any, vals); for (size_t i = 0; i < r.size(); ++i) if (r[i] != (want[i] || want2[i])) return fail("`!any` changed the named any_of"); }
+    { auto r = lv_eval(nany, vals), q = lv_eval(none, vals); if (r != q) return fail("`!any_of(m, m2)` and `none_of(m, m2)` built from lvalues disagree"); }
+    auto d = *m;                                         // dereference matcher from an lvalue
+    if (lv_eval(m, vals) != want) return fail("`*m` changed the named matcher m");
+    for (size_t i = 0; i < vals.size(); ++i) {
+      const std::string* pv = &vals[i];
+      if (trompeloeil::param_matches(d, std::cref(pv)) != want[i]) return fail("`*m` built from an lvalue is wrong");
+    }
+    auto mem = MEMBER_IS(&S::s, m);                      // member matcher from an lvalue
+    if (lv_eval(m, vals) != want) return fail("`MEMBER_IS(&S::s, m)` changed the named matcher m");
+    for (size_t i = 0; i < vals.size(); ++i) {
+      S sv{1, vals[i]};
+      if (trompeloeil::param_matches(mem, std::cref(sv)) != want[i]) return fail("`MEMBER_IS(&S::s, m)` built from an lvalue is wrong");
+    }
+    return true;
+  };
+  switch (rel) {
+    case 0: return run(trompeloeil::eq(A), trompeloeil::eq(B));
+    case 1: return run(trompeloeil::ne(A), trompeloeil::ne(B));
+    case 2: return run(trompeloeil::lt(A), trompeloeil::lt(B));
+    default: return run(trompeloeil::ge(A), trompeloeil::ge(B));
+  }
+}
+// regular expressions kept in a named matcher
+static bool lvalue_laws_re(int ia, std::string& why) {
+  const std::string pat = std::string("^0123456789abcdefghij_") + (POOL[ia][0] ? POOL[ia] : "$");
+  std::vector<std::string> vals{lv_long(ia), lv_long((ia + 3) % NPOOL), std::string(), "0123456789abcdefghij_"};
+  auto m = trompeloeil::re(pat);
+  auto before = lv_eval(m, vals);
+  for (size_t i = 0; i < vals.size(); ++i)
+    if (before[i] != std::regex_search(vals[i], std::regex(pat))) { why = "named-lvalue law violated: fresh re() disagrees with std::regex_search, pattern " + pat; return false; }
+  auto n = !m;
+  if (lv_eval(m, vals) != before) { why = "named-lvalue law violated: `!m` changed the named re() matcher, pattern " + pat; return false; }
+  auto r = lv_eval(n, vals);
+  for (size_t i = 0; i < r.size(); ++i) if (r[i] == before[i]) { why = "named-lvalue law violated: `!re` built from an lvalue is wrong, pattern " + pat; return false; }
+  return true;
+}
+static bool lvalue_laws_all(std::string& why, int only_a = -1, int only_b = -1, int only_rel = -1) {
+  for (int a = 0; a < NPOOL; ++a) {
+    if (only_a >= 0 && a != only_a) continue;
+    if (only_rel < 0 || only_rel == 9) { ST.evaluations++; if (!lvalue_laws_re(a, why)) { why += "\nlvlaw " + std::to_string(a) + " 0 9"; return false; } }
+    for (int b = 0; b < NPOOL; ++b) {
+      if (only_b >= 0 && b != only_b) continue;
+      for (int rel = 0; rel < 4; ++rel) {
+        if (only_rel >= 0 && rel != only_rel) continue;
+        ST.evaluations++;
+        ST.label("named_lvalue_law_cases");
+        if (!lvalue_laws_one(a, b, rel, why)) { why += "\nlvlaw " + std::to_string(a) + " " + std::to_string(b) + " " + std::to_string(rel); return false; }
+      }
+    }
+  }
+  return true;
+}
+
 int do_replay(const std::string& path, bool verbose) {
+  {
+    // replay of a named-lvalue law case: a line `lvlaw <a> <b> <rel>`
+    std::istringstream in(vc::read_file(path));
+    std::string line;
+    while (std::getline(in, line)) {
+      if (line.rfind("lvlaw ", 0) == 0) {
+        int a = 0, b = 0, rel = 0;
+        sscanf(line.c_str() + 6, "%d %d %d", &a, &b, &rel);
+        std::string why;
+        bool good = lvalue_laws_all(why, a, rel == 9 ? -1 : b, rel);
+        if (verbose) printf("replay %s: named-lvalue law %d %d %d: %s\n%s\n", path.c_str(), a, b, rel, good ? "passes" : "FAILS", why.c_str());
+        return good ? 0 : 1;
+      }
+    }
+  }
   std::istringstream in(vc::read_file(path));
   std::string line;
   Case c;
@@ -1304,7 +1412,22 @@ int main(int argc, char** argv) {
     return rc;
   }
   bool ok = true;
-  if (mode == "all" || mode == "enum") {
+  {
+    // named-lvalue laws: small, exhaustive over the string pool, always run first
+    std::string why;
+    if (!lvalue_laws_all(why)) {
+      std::string path = A.faildir + "/m_fail." + A.prop + "." + std::to_string(getpid()) + ".txt";
+      std::string txt = "# engine=M prop=C10\n";
+      std::istringstream w(why);
+      std::string l, last;
+      while (std::getline(w, l)) { if (l.rfind("lvlaw ", 0) == 0) last = l; else txt += "# " + l + "\n"; }
+      vc::write_file(path, txt + last + "\n");
+      g_last_fail = path;
+      if (!A.has("quiet")) fprintf(stderr, "%s\n", why.c_str());
+      ok = false;
+    }
+  }
+  if (ok && (mode == "all" || mode == "enum")) {
     std::string why;
     ok = enumerate(why);
     if (ok) { ST.extra_json["x_enum_scope_complete"] = "true"; }
